@@ -27,6 +27,20 @@ def run(ctx):
         if key not in seen_enc and encodable(v):
             seen_enc.add(key)
             scen.append({"sc": len(scen), "kind": "enc", "v": v})
+    # markers lal does not know (reference 7, date 11, xml 15, typed object 16) with enough bytes behind them to pass for a
+    # value of that type: inside a strict array and an object, complete and cut 1 / 2 bytes short
+    num, boo = {"k": "num", "id": 1}, {"k": "bool", "b": True}
+    for m in (7, 11, 15, 16):
+        unk = {"k": "unk", "m": m}
+        shapes = [{"k": "strict", "cnt": 2, "vs": [unk, num]}, {"k": "strict", "cnt": 3, "vs": [unk, num, boo]},
+                  {"k": "strict", "cnt": 3, "vs": [num, unk, num]},
+                  {"k": "obj", "end": True, "ps": [{"key": {"n": 2, "id": 7, "s": ""}, "v": unk}, {"key": {"n": 3, "id": 8, "s": ""}, "v": num}]},
+                  {"k": "ecma", "cnt": 2, "end": True, "ps": [{"key": {"n": 2, "id": 7, "s": ""}, "v": unk}, {"key": {"n": 3, "id": 8, "s": ""}, "v": num}]}]
+        for v in shapes:
+            full = {"strict": lambda v: 5 + sum(1 if x["k"] == "unk" else (9 if x["k"] == "num" else 2) for x in v["vs"]),
+                    "obj": lambda v: 1 + (2 + 2 + 1) + (2 + 3 + 9) + 3, "ecma": lambda v: 5 + (2 + 2 + 1) + (2 + 3 + 9) + 3}[v["k"]](v)
+            for cut in (full, full - 1, full - 2):
+                scen.append({"sc": len(scen), "kind": "dec", "v": v, "cut": cut})
     # object keys at and beyond what the 16-bit key length can say
     for n in (65535, 65536, 70000):
         scen.append({"sc": len(scen), "kind": "enc", "v": {"k": "obj", "end": True, "ps": [
@@ -46,7 +60,8 @@ def run(ctx):
             {"k": "obj", "ps": [{"key": {"n": 2, "id": 7, "s": ""}, "v": {"k": "num", "id": 1}}], "end": True},
             {"k": "ecma", "ps": [{"key": {"n": 3, "id": 8, "s": ""}, "v": {"k": "str", "s": {"n": 65535, "id": 3, "s": ""}}}],
              "cnt": 1, "end": True}]
-    for o in objs:
+    # (the last scenario repeats the first: the driver then sees whether what it was handed before is still intact)
+    for o in objs + objs[:2]:
         for sdf in (True, False):
             scen.append({"sc": len(scen), "kind": "sdf", "v": o, "sdf": sdf})
         scen.append({"sc": len(scen), "kind": "sdf", "v": o, "sdf": True, "sdfLong": True})
